@@ -33,14 +33,19 @@ structure InvA (s : State) : Prop where
   entry_nr : s.entry = false → s.running = false
   crit_nd : s.crit.isSome = true → s.disabled = false
   crit_conn : ∀ t ph, s.crit = some (t, ph) → ph ≠ .stopping →
-    s.loop = none ∧ s.running = false ∧ s.sess ≠ some true
+    s.loop = none ∧ s.running = false ∧
+    ((ph = .connA false ∨ ph = .connB false) → s.sess = some false ∧ s.entry = true) ∧
+    ((ph = .connA true ∨ ph = .connB true) → s.sess = none ∧ s.entry = false)
+  crit_entry : ∀ t, s.crit = some (t, .stopping) → s.entry = true
+  termDel_dis : ∀ th ∈ s.threads, th.ph = .termDel → s.disabled = true
+  wait_entry : ∀ th ∈ s.threads, th.ph = .waitLock → s.entry = true ∨ s.disabled = true
 
 theorem invA_init (w : Bool) : InvA (init w) := by
   constructor <;> simp [init]
 
 theorem invA_loop {s : State} {l : Loop} {lab : Label} {s' : State} (hl : s.loop = some l)
     (h : (lab, s') ∈ loopSteps s l) (i : InvA s) : InvA s' := by
-  obtain ⟨h1, h2, h3, h4, h5, _⟩ := loopSteps_frame h
+  obtain ⟨h1, h2, h3, h4, h5, _, _, _, h9⟩ := loopSteps_frame h
   have hr : s.running = true := i.loop_running (by simp [hl])
   constructor
   · intro _; rw [h4]; exact hr
@@ -53,5 +58,40 @@ theorem invA_loop {s : State} {l : Loop} {lab : Label} {s' : State} (hl : s.loop
     have := (i.crit_conn t ph hc hne).2.1
     rw [hr] at this
     exact absurd this (by simp)
+  · intro t hc
+    rw [h5] at hc
+    rw [h2]
+    exact i.crit_entry t hc
+  · intro th hth hph
+    rw [h3]
+    have : (th.id, th.op, th.ph) ∈ s'.threads.map (fun t => (t.id, t.op, t.ph)) := List.mem_map_of_mem hth
+    rw [h9] at this
+    obtain ⟨th0, hth0, he⟩ := List.mem_map.mp this
+    simp only [Prod.mk.injEq] at he
+    exact i.termDel_dis th0 hth0 (by rw [he.2.2]; exact hph)
+  · intro th hth hph
+    rw [h2, h3]
+    have : (th.id, th.op, th.ph) ∈ s'.threads.map (fun t => (t.id, t.op, t.ph)) := List.mem_map_of_mem hth
+    rw [h9] at this
+    obtain ⟨th0, hth0, he⟩ := List.mem_map.mp this
+    simp only [Prod.mk.injEq] at he
+    exact i.wait_entry th0 hth0 (by rw [he.2.2]; exact hph)
+
+theorem len1 {α : Type} {l : List α} {a b : α} (h : l.length = 1) (ha : a ∈ l) (hb : b ∈ l) : a = b := by
+  match l, h with
+  | [x], _ => simp at ha hb; rw [ha, hb]
+
+set_option maxHeartbeats 16000000 in
+theorem invA_thread {s : State} {th : Thread} {lab : Label} {s' : State} (hth : th ∈ s.threads)
+    (h : (lab, s') ∈ threadSteps s th) (i : InvA s) : InvA s' := by
+  obtain ⟨i1, i2, i3, i4, i5, i6, i6', i7, i8⟩ := i
+  unfold threadSteps at h
+  split at h
+  all_goals
+    constructor <;>
+    aesop (add norm simp [acquire, afterStop, finish, State.setThread, State.dropThread, State.startLoop,
+      State.cancelLoop, newLoop, othersIdle])
+      (add safe forward i7) (add safe forward i8) (add safe forward len1)
+      (config := { maxRuleApplications := 400 })
 
 end Mutagen.Proofs.Lifecycle
